@@ -956,3 +956,65 @@ Proof.
   split; [vm_compute; reflexivity|]. split; [vm_compute; reflexivity|].
   unfold c10_scg_overrides_ok. pose proof (dom_fields g_prog g_dom_ok) as G. revert G. apply Forall_impl. intros f (_ & _ & Ho & _). exact Ho.
 Qed.
+
+(* ------------------------------------------------------------------ COMPUTABLE sufficient conditions for the verbatim texts *)
+(* the segments of a dotted name *)
+Fixpoint c10_sc_segments (s : str) : list str :=
+  match s with
+  | [] => [[]]
+  | c :: r => if c =? 46 then [] :: c10_sc_segments r
+              else match c10_sc_segments r with h :: t => (c :: h) :: t | [] => [[c]] end
+  end.
+Lemma segments_ne s : c10_sc_segments s <> [].
+Proof. destruct s as [|c r]; cbn [c10_sc_segments]; [discriminate|]. destruct (c =? 46); [discriminate|]. destruct (c10_sc_segments r); discriminate. Qed.
+Lemma join_segments s : join [46] (c10_sc_segments s) = s.
+Proof.
+  induction s as [|c r IH]; [reflexivity|]. cbn [c10_sc_segments]. pose proof (segments_ne r) as Hne. destruct (c =? 46) eqn:E.
+  - destruct (c10_sc_segments r) as [|h t]; [congruence|]. change (join [46] ([] :: h :: t)) with ([] ++ [46] ++ join [46] (h :: t)).
+    rewrite IH. cbn [app]. f_equal. lia.
+  - destruct (c10_sc_segments r) as [|h t]; [congruence|]. rewrite <- IH. destruct t as [|h2 t]; [reflexivity|].
+    change (join [46] ((c :: h) :: h2 :: t)) with ((c :: h) ++ [46] ++ join [46] (h2 :: t)). reflexivity.
+Qed.
+
+(* every type_mappings value is a name of the grammar (String, Instant, BigInt ...), the package name splits at its dots into names *)
+Definition c10_scg_cfg_simple (cfg : sc_config) : bool :=
+  forallb (fun kv => gnameb (snd kv)) (sc_type_mappings cfg) && forallb gnameb (c10_sc_segments (sc_package cfg)).
+(* every Scala type override is a name of the grammar *)
+Definition c10_scg_overrides_simple (pd : parsed) : bool :=
+  forallb (fun f => match type_override f Scala with Some o => gnameb o | None => true end) (c10_all_fields pd).
+
+Lemma cfg_simple_ok cfg : c10_scg_cfg_simple cfg = true -> c10_scg_cfg_ok cfg.
+Proof.
+  unfold c10_scg_cfg_simple. rewrite andb_true_iff. intros [H1 H2]. split.
+  - apply Proofs.C10Lex.forallb_Forall in H1. revert H1. apply Forall_impl. intros kv H. apply tytext_ident, gnameb_ok, H.
+  - exists (c10_sc_segments (sc_package cfg)). split; [apply segments_ne|]. split; [|symmetry; apply join_segments].
+    apply Proofs.C10Lex.forallb_Forall in H2. revert H2. apply Forall_impl. intros s H. apply gnameb_ok, H.
+Qed.
+Lemma overrides_simple_ok pd : c10_scg_overrides_simple pd = true -> c10_scg_overrides_ok pd.
+Proof.
+  unfold c10_scg_overrides_simple, c10_scg_overrides_ok. intros H. apply Proofs.C10Lex.forallb_Forall in H. revert H. apply Forall_impl.
+  intros f H o E. rewrite E in H. apply tytext_ident, gnameb_ok, H.
+Qed.
+
+Theorem sc_generate_recognised_simple uc cfg pd text :
+  Proofs.C10_SC.c10_sc_cfg_ok cfg = true -> c10_scg_cfg_simple cfg = true -> dom_C10 CSC pd = true ->
+  known_C10 CSC (sc_package cfg) pd = [] -> known_C10_sc_grammar (sc_package cfg) pd = [] -> c10_scg_overrides_simple pd = true ->
+  sc_generate uc cfg pd = Ok text ->
+  exists n, c10_sc_recognise text = Some n /\ (List.length (p_aliases pd) + List.length (p_structs pd) + List.length (p_enums pd) <= n)%nat.
+Proof.
+  intros Hcfg Gcfg Hdom Hk Hg Hov. apply sc_generate_recognised_classes; auto using cfg_simple_ok, overrides_simple_ok.
+Qed.
+
+(* satisfiable: the witness program without its verbatim override, under the witness configuration *)
+Definition s_prog : parsed :=
+  {| p_structs := [{| sid := g_id "Person"; sgenerics := [lit "T"];
+                      sfields := [g_field "name" (RPrim PString); g_field "home" (RSimple (lit "Url")); g_field "tags" (RVec (RSimple (lit "T")));
+                                  {| fid := g_id "when"; fty := RPrim PString; fcomments := []; has_default := false;
+                                     fdecs := [(Scala, [DNameValue (lit "type") (lit "Instant")])] |}];
+                      scomments := []; sdecs := []; sredacted := false |}];
+     p_enums := [g_unit_enum; g_enum]; p_aliases := [g_alias]; p_consts := []; p_type_names := []; p_errors := []; p_imports := [] |}.
+Example C10_sc_grammar_simple_nonvacuous :
+  Proofs.C10_SC.c10_sc_cfg_ok g_cfg = true /\ c10_scg_cfg_simple g_cfg = true /\ dom_C10 CSC s_prog = true /\
+  known_C10 CSC (sc_package g_cfg) s_prog = [] /\ known_C10_sc_grammar (sc_package g_cfg) s_prog = [] /\ c10_scg_overrides_simple s_prog = true /\
+  exists text, sc_generate uc_exec g_cfg s_prog = Ok text /\ contains_sub (lit "when: Instant") text = true /\ c10_sc_recognise text = Some 11%nat.
+Proof. repeat split; try (vm_compute; reflexivity). eexists. repeat split; vm_compute; reflexivity. Qed.
